@@ -307,6 +307,17 @@ class ChainWorld(World):
         if set(d) != {"root", "key_mgr"} or md.get("version") != version or md.get("type") != "root":
             self.run.violate(("C16",), "builder-not-faithful", "root metadata does not carry its arguments verbatim")
             return
+        if op.get("legacy"):
+            # a root file as older tooling wrote it / as operators extend it by hand: another spec version, further delegations next to
+            # root and key_mgr (file-style names, retired keys parked under another name).  Only the delegation named "root" rules root.
+            keep = copy.deepcopy(doc)
+            doc["signed"]["metadata_spec_version"] = op["legacy"].get("spec", "0.1.0")
+            for name, idxs in op["legacy"].get("extra", {}).items():
+                doc["signed"]["delegations"][name] = {"pubkeys": [self.keys.pub[i] for i in idxs if i < len(self.keys)], "threshold": 1}
+            if not self._wf(doc):
+                doc = keep
+            else:
+                self.run.probe("legacy_style_root")
         self.staged = {"doc": doc, "signers": []}
         self.honest_payloads.add(payload_hash(doc["signed"]))
         self.run.probe("ceremony_started")
@@ -556,6 +567,22 @@ class ChainWorld(World):
                     self.run.probe("corrupted_response_unparsable")
                     return
                 doc = lo.value
+        if op.get("stdout"):
+            # the client's standard output breaks while the verifier reports what it ignores (closed stream, broken pipe, full device):
+            # the verification may fail, it must not turn into an acceptance the chain rules do not grant.  Nothing is adopted.
+            T, N = self.clients[c]["trusted"], copy.deepcopy(doc)
+            self.calls.out.arm(op["stdout"][1], op["stdout"][0])
+            o = self.calls.raw("verify_root", T, N)
+            fired = self.calls.out.disarm()
+            if fired:
+                self.run.fault("stdout_write_failure_" + op["stdout"][0])
+                accept, reason, _ = self.model_root(T, N)
+                if o.ok and not accept:
+                    self.run.violate(("C03", "C04", "C01"), "root-accepted-wrongly", "verify_root accepted although the chain model rejects it (%s) - while "
+                                     "writes to standard output were failing (%s)" % (reason, op["stdout"][0]), "root-accepted:stdout:" + reason)
+            else:
+                self.run.probe("fault_point_beyond_call")
+            return
         self._deliver(c, doc, "offer:" + src[0])
         if net and net[0] == "dup" and not self.run.stop:
             self._deliver(c, doc, "offer-dup:" + src[0])
@@ -734,6 +761,11 @@ class ChainWorld(World):
         if r < 0.06:
             version = rng.choice([1, 2, 0, -1, 2.0, True, None, "2", 10**20, 1.5, float("inf"), float("nan")])   # operator error
         op = {"op": "ceremony_start", "root": new, "t": t, "km": [rng.randrange(nk)], "km_t": 1, "version": version, "dt": dt}
+        if rng.random() < 0.15:
+            others = [i for i in range(nk) if i not in new] or [rng.randrange(nk)]
+            op["legacy"] = {"spec": rng.choice(["0.1.0", "0.5.9", "0.6.0", "0.0.1", "1.0.0"]),
+                            "extra": {rng.choice(["root.json", "key_mgr.json", "Root", "root ", "pkg_mgr", "root.json"]): [rng.choice(others)],
+                                      rng.choice(["pkg_mgr", "key_mgr.json", "old-root"]): [rng.choice(others)]}}
         if rng.random() < 0.3:
             op["ts"] = rng.choice(["2021-03-04T05:06:07Z", "2024-02-29T23:59:59Z", "1999-12-31T23:59:59Z", "not a date", 5])
         if rng.random() < 0.3:
@@ -764,6 +796,8 @@ class ChainWorld(World):
         if r < 0.62 or not self.crafted:
             return self._gen_craft(rng, dt)
         op = {"op": "offer", "client": rng.randrange(nclients), "src": ["crafted", rng.randrange(len(self.crafted))], "dt": dt}
+        if rng.random() < 0.15:
+            op["stdout"] = [rng.choice(["EPIPE", "closed", "ENOSPC", "EIO"]), rng.randint(1, 6)]
         r2 = rng.random()
         if r2 < 0.3:
             op["net"] = ["dup"]          # the attacker simply tries again (a retry, a second mirror)
@@ -949,7 +983,11 @@ class ChainWorld(World):
         flood = None
         if rng.random() < (0.5 if kind == "outsider_takeover" else 0.12):
             # the unsigned signature map padded with entries that will be ignored, before or after the real ones
-            flood = ["flood", rng.choice([7, 8, 9, 9, 10, 12, 30, 99, 100, 101, 130, 1100]), rng.getrandbits(30), rng.random() < 0.7]
+            ns = [7, 8, 9, 9, 10, 12, 30, 99, 100, 101, 130, 1100]
+            hv = gen.harvested(4, 5000)
+            if hv and rng.random() < 0.5:
+                ns = hv
+            flood = ["flood", rng.choice(ns), rng.getrandbits(30), rng.random() < 0.7]
             kinds.append("flood")
         op = {"op": "craft", "base": base, "mods": mods, "signers": signers, "mods_after": after, "kinds": kinds, "dt": dt}
         if outsiders:
